@@ -7,8 +7,10 @@ REGISTRATION = {
     "technique": "Lean 4 proof over byte-level codec model + byte-exact differential correspondence",
     "category": "proof",
     "text": "Kernel-checked theorems over a byte-level Lean model of WriteGGUF/Decode (all tensor counts, kinds, "
-            "sizes, alignments): declared offsets are aligned and the tensor's bytes are found there; decoder "
-            "round trip. Model = code is checked byte-for-byte on thousands of generated files per run, and the "
+            "sizes, alignments): declared offsets are aligned and the tensor's bytes are found there "
+            "(bytes_at_declared_offset); full decoder round trip decode(encode kvs ts) = written keys/values + parameter "
+            "count, tensor infos with reversed shapes and declared offsets, aligned data start, end offset = file length "
+            "(decode_encode; keys given in key order and distinct, lengths/counts below 2^63). Model = code is checked byte-for-byte on thousands of generated files per run, and the "
             "property predicate is evaluated on the real decoder's view of the real writer's file.",
     "design_ref": "DESIGN.md §5 C05",
     "note": COMMON_NOTE + "Modelled, not verified: the tensor sort (any permutation is covered by the theorem; "
@@ -19,6 +21,9 @@ REGISTRATION = {
 MODULES = ["OllamaVerif.Properties.C05", "OllamaVerif.Tie.C05"]
 THEOREMS = [
     "OllamaVerif.C05.bytes_at_declared_offset",
+    "OllamaVerif.C05.decode_encode",
+    "OllamaVerif.C05.end_offset_is_file_length",
+    "OllamaVerif.Gguf.tensorSize_reverse",
     "OllamaVerif.C05.F1_pinned_offsets_alias",
     "OllamaVerif.Tie.C05.type_table_complete",
     "OllamaVerif.Tie.C05.type_table_matches",
